@@ -29,8 +29,10 @@ WALKS = ["name_to_named_debruijn", "name_to_debruijn", "named_debruijn_to_name",
 PROTO = {
     "name_to_named_debruijn": ["declare_unique", "get_index", "start_scope", "@rec", "end_scope", "remove_unique"],
     "name_to_debruijn": ["declare_unique", "get_index", "start_scope", "@rec", "end_scope", "remove_unique"],
-    "named_debruijn_to_name": ["declare_binder", "get_unique", "start_scope", "@rec", "end_scope"],
-    "debruijn_to_name": ["declare_binder", "get_unique", "start_scope", "@rec", "end_scope"],
+    # the binder declared for a lambda is removed again after its body: otherwise an index of a *sibling* term resolves to it
+    # (`[(lam 1) 0]` converted instead of failing with FreeIndex on the pinned tree — fixed, findings/c11-binder-leak/)
+    "named_debruijn_to_name": ["declare_binder", "get_unique", "start_scope", "@rec", "end_scope", "remove_unique"],
+    "debruijn_to_name": ["declare_binder", "get_unique", "start_scope", "@rec", "end_scope", "remove_unique"],
 }
 
 
